@@ -496,7 +496,7 @@ Lemma smem_app_false x a b : smem x a = false -> smem x b = false -> smem x (a +
 Proof. intros H1 H2. now rewrite smem_app, H1, H2. Qed.
 
 Ltac in_solve :=
-  match goal with
+  lazymatch goal with
   | |- In _ (_ :: _) => first [left; reflexivity | right; in_solve]
   | |- In _ (_ ++ _) => apply in_or_app; first [left; in_solve | right; in_solve]
   | |- In _ (rev _) => apply -> in_rev; in_solve
@@ -2005,3 +2005,39 @@ Proof.
   rewrite wf_file_split. fold c. rewrite tf_imports_ok, HN, tf_tops_ok. reflexivity.
 Qed.
 End TestifyFile.
+
+(* ================================================================== C01_self *)
+Lemma step_self_free d st o :
+  dst (fst st) = d -> inpkg (fst st) = true -> ~ In d (map ipath (imports (fst st))) ->
+  ~ In d (map ipath (imports (fst (fst (step st o))))).
+Proof.
+  destruct st as [r s]. cbn [fst]. intros D I N.
+  destruct o; cbn [step fst]; try exact N; try (unfold allocate; cbn [fst]; exact N).
+  pose proof (add_import_cases r name path) as H. destruct (add_import r name path) as [r' x]. cbn [fst].
+    destruct H as (_ & _ & [(_ & -> & _) | [(_ & -> & _) | (NS & _ & i & _ & E & P & _)]]); try exact N.
+  rewrite E, map_app. cbn [map]. intros Hin. apply in_app_or in Hin as [Hin|[Hin|[]]]; [now apply N|].
+  apply NS. unfold self. rewrite <- Hin, P in *. subst d. now split.
+Qed.
+
+Lemma self_never_imported d ops : ~ In d (map ipath (imports (fst (final (init d true) ops)))).
+Proof.
+  assert (forall st, dst (fst st) = d -> inpkg (fst st) = true -> ~ In d (map ipath (imports (fst st))) ->
+                     ~ In d (map ipath (imports (fst (final st ops))))) as G.
+  { induction ops as [|o ops IH]; intros st D I N; [exact N|]. cbn [final]. apply IH.
+    - destruct (step_reg_consts st o) as [H _]. congruence.
+    - destruct (step_reg_consts st o) as [_ H]. congruence.
+    - now apply step_self_free. }
+  apply G; [reflexivity | reflexivity | intros []].
+Qed.
+
+Lemma bare_types_resolve c env n :
+  resolve_ok c env KPkgType n = true -> (In n (c_types c) \/ In n universe_types) /\ ~ In n (c_quals c).
+Proof.
+  unfold resolve_ok. destruct (lookup n env) as [[? ?]|]; [discriminate|]. unfold pkg_type_ok.
+  rewrite andb_true_iff, orb_true_iff, negb_true_iff, !smem_In, smem_false. tauto.
+Qed.
+Lemma qualifiers_resolve c env q :
+  resolve_ok c env KQual q = true -> In q (c_quals c) /\ lookup q env = None.
+Proof.
+  unfold resolve_ok. destruct (lookup q env) as [[? ?]|]; [discriminate|]. rewrite smem_In. tauto.
+Qed.
